@@ -61,6 +61,7 @@ type tcpConnSpec struct {
 	SlowStartMs int      `json:"client_reads_after_ms,omitempty"` // the client starts reading only then (a large download sits in the kernel buffers when the server closes)
 }
 type tcpCaseSpec struct {
+	Job       int           `json:"job"` // number of the case in its run
 	Cfg       []cfgKey      `json:"cfg"`
 	Cap       int           `json:"cap"`
 	Conns     []tcpConnSpec `json:"conns"`
